@@ -10,7 +10,7 @@
    (whatever other sessions committed).
 
    Collection part: one Set attribute of one object, either one-to-many (items carry the owner column) or many-to-many
-   (link table): Set.load / copy / __len__, Set.db_reverse_add ("phantom appeared"), Set.db_reverse_remove (silent),
+   (link table): Set.load / copy / __len__, Set.db_reverse_add ("phantom appeared"), Set.db_reverse_remove ("phantom disappeared" when fully loaded),
    the "phantom disappeared" check of Set.load for many-to-many, and the read bits copy() puts on every item's owner. *)
 From Coq Require Import ZArith List Bool.
 Import ListNotations.
@@ -129,7 +129,7 @@ Definition item_reload (s : cstate) (i : nat) (mine : bool) : cstate :=
   else if mem i (pinned s) then cfail s                                      (* rbit on item.owner: UnrepeatableReadError *)
   else if mine then (if full s then cfail s                                  (* db_reverse_add: phantom appeared *)
                      else with_items s (add i (items s)))
-  else with_items s (remove i (items s)).                                    (* db_reverse_remove: silent, even if fully loaded *)
+  else with_items s (remove i (items s)).                                    (* db_reverse_remove on a collection that is not fully loaded (the fully loaded case is caught in cstep) *)
 
 (* Set.load *)
 Definition cload (m2m : bool) (s : cstate) (dbitems : list nat) : cstate :=
@@ -145,7 +145,7 @@ Definition cload (m2m : bool) (s : cstate) (dbitems : list nat) : cstate :=
     if cfailed s1 then s1
     else {| items := items s1; full := true; pinned := pinned s1; revfull := revfull s1; cfailed := false; cobs := cobs s1 |}.
 
-Definition cstep (m2m : bool) (s : cstate) (e : cev) : cstate :=
+Definition cstep0 (m2m : bool) (s : cstate) (e : cev) : cstate :=
   if cfailed s then s else
   match e with
   | CObsCopy db =>
@@ -167,9 +167,9 @@ Definition cstep (m2m : bool) (s : cstate) (e : cev) : cstate :=
       else {| items := items s; full := full s; pinned := pinned s; revfull := add i (revfull s); cfailed := false; cobs := cobs s |}
   end.
 
-Definition crun (m2m : bool) (s : cstate) (evs : list cev) : cstate := fold_left (cstep m2m) evs s.
+Definition crun0 (m2m : bool) (s : cstate) (evs : list cev) : cstate := fold_left (cstep0 m2m) evs s.
 
-(* the one way an observed, fully loaded collection changes silently: a member without read bit on its owner moves away *)
+(* the event db_reverse_remove now rejects: a member without read bit on its owner moves away from a fully loaded collection *)
 Definition bad_event (m2m : bool) (s : cstate) (e : cev) : bool :=
   match e with
   | CItemReload i false => negb m2m && negb (cfailed s) && full s && mem i (items s) && negb (mem i (pinned s))
@@ -179,12 +179,13 @@ Definition bad_event (m2m : bool) (s : cstate) (e : cev) : bool :=
 Fixpoint no_bad (m2m : bool) (s : cstate) (evs : list cev) : bool :=
   match evs with
   | [] => true
-  | e :: r => negb (bad_event m2m s e) && no_bad m2m (cstep m2m s e) r
+  | e :: r => negb (bad_event m2m s e) && no_bad m2m (cstep0 m2m s e) r
   end.
 
-(* the proposed repair (Set.db_reverse_remove raises "phantom disappeared" on a fully loaded collection): the bad event fails loudly *)
-Definition cstep_fixed (m2m : bool) (s : cstate) (e : cev) : cstate := if bad_event m2m s e then cfail s else cstep m2m s e.
-Definition crun_fixed (m2m : bool) (s : cstate) (evs : list cev) : cstate := fold_left (cstep_fixed m2m) evs s.
+(* Set.db_reverse_remove raises "Phantom object disappeared" on a fully loaded, non-volatile collection (repo commit a9972eb):
+   the step as coded = cstep0 plus that check; cstep0 alone is the code before the repair and is kept only as a building block *)
+Definition cstep (m2m : bool) (s : cstate) (e : cev) : cstate := if bad_event m2m s e then cfail s else cstep0 m2m s e.
+Definition crun (m2m : bool) (s : cstate) (evs : list cev) : cstate := fold_left (cstep m2m) evs s.
 
 Fixpoint all_same (l : list (list nat)) : Prop :=
   match l with
@@ -219,10 +220,10 @@ Definition outcome_eqb (x y : bool * list tev) : bool := Bool.eqb (fst x) (fst y
 Fixpoint insert (i : nat) (l : list nat) : list nat :=
   match l with [] => [i] | j :: r => if Nat.leb i j then i :: l else j :: insert i r end.
 Definition sort (l : list nat) : list nat := fold_right insert [] l.
+Definition coutcome0 (m2m : bool) (evs : list cev) : bool * list (list nat) :=
+  let s := crun0 m2m cinit evs in (cfailed s, map sort (rev (cobs s))).
 Definition coutcome (m2m : bool) (evs : list cev) : bool * list (list nat) :=
   let s := crun m2m cinit evs in (cfailed s, map sort (rev (cobs s))).
-Definition coutcome_fixed (m2m : bool) (evs : list cev) : bool * list (list nat) :=
-  let s := crun_fixed m2m cinit evs in (cfailed s, map sort (rev (cobs s))).
 Definition coutcome_eqb (x y : bool * list (list nat)) : bool := Bool.eqb (fst x) (fst y) && list_eqb (list_eqb Nat.eqb) (snd x) (snd y).
 
 Fixpoint failing_from (i : nat) (l : list bool) : list nat :=
